@@ -435,7 +435,7 @@ var firstKinds = []string{"app-bootstrap", "app-bootstrap", "app-bootstrap", "pe
 var _ = pbt.Register(pbt.Spec[Case]{
 	Property: "C09", Name: "fault-enumeration",
 	Rule:  "base scenario = 2-10 drawn steps (local Bootstrap, calls with and without capability params, pipelined calls, cancellations, releases; peer Bootstrap, calls returning at once / held / returning a new capability, Finish, Return with capability or exception; gate openings; barriers). The scenario is first run fault-free to count its transport operations N, then re-run once for EVERY operation index 0..N-1 and every fault kind applicable to that operation (error from NewMessage, a message from NewMessage whose arena is exhausted after the root struct so that building it fails, error from send, error or EOF from RecvMessage): exhaustive per scenario; in addition every prefix of the scenario is run and closed (Close injected at every step), and at every position after an application call the oldest and the newest call made so far are cancelled (cancellation injected at every step). Each run ends with Close once / twice / three times / three times concurrently; in a quarter of the scenarios the transport's own Close reports an error. Oracle per run: every API call returns within the deadline; Done() closes; every pending answer resolves; Bootstrap and calls after Close yield errors; releases return; transport closed exactly once; Conn.mu and the sender lock are free (VerifState hook); no goroutine with an rpc frame survives 10 s. Non-trivial: at least one call was pending when the connection went down.",
-	Quick: 100, Thorough: 1000,
+	Quick: 100, Thorough: 700,
 	Gen: func(t *rapid.T) Case {
 		c := Case{CloseMode: rapid.IntRange(0, 3).Draw(t, "close"), OnlyIndex: -1, CloseFails: rapid.IntRange(0, 3).Draw(t, "closefails") == 0}
 		for i, n := 0, rapid.IntRange(2, 10).Draw(t, "n"); i < n; i++ {
